@@ -119,6 +119,25 @@ def _shuffled(h, vals):
     return vals
 
 
+def build_spec(kind, sd):
+    """A configured, not yet parsed specification object."""
+    s = new_spec(kind, sd.get('semantics', 'standard'))
+    for v in sd.get('vars', ()):
+        s.declare_var(v, sd.get('types', {}).get(v, 'float'))
+    for (cn, ct, cv) in sd.get('consts', ()):
+        s.declare_const(cn, ct, cv)
+    for v, t in sorted(sd.get('io', {}).items()):
+        s.set_var_io_type(v, t)
+    if sd.get('unit') is not None:
+        s.unit = sd['unit']
+    if sd.get('period') is not None:
+        s.set_sampling_period(*sd['period'])
+    for sub in sd.get('subspecs', ()):
+        s.add_sub_spec(sub)
+    s.spec = sd['text']
+    return s
+
+
 class Mon(object):
     """One rtamt specification object behind a recording boundary.
 
@@ -133,20 +152,8 @@ class Mon(object):
         self.kind = kind
         self.sd = sd
         self._hist = None
-        s = self.spec = new_spec(kind, sd.get('semantics', 'standard'))
-        for v in sd.get('vars', ()):
-            s.declare_var(v, sd.get('types', {}).get(v, 'float'))
-        for (cn, ct, cv) in sd.get('consts', ()):
-            s.declare_const(cn, ct, cv)
-        for v, t in sorted(sd.get('io', {}).items()):
-            s.set_var_io_type(v, t)
-        if sd.get('unit') is not None:
-            s.unit = sd['unit']
-        if sd.get('period') is not None:
-            s.set_sampling_period(*sd['period'])
-        for sub in sd.get('subspecs', ()):
-            s.add_sub_spec(sub)
-        s.spec = sd['text']
+        self._pastified = False
+        self.spec = build_spec(kind, sd)
         if parse:
             self.parse()
         if pastify:
@@ -208,9 +215,40 @@ class Mon(object):
         if what:
             LAST_HISTORY.append('object #%d: %s' % (self.oid, what))
 
+    def _neighbour(self, h, method, args):
+        """Another object of the process with a confusable configuration - the same text, a sampling period with
+        the same number and the next finer unit (discrete time; bounds stay multiples of it) or another default
+        unit (dense time) - is built, parsed and driven with the same arguments first (C11: operations on one
+        specification object never change the results of another).  Never raises."""
+        sd = dict(self.sd)
+        text = ' '.join([sd.get('text', '')] + list(sd.get('subspecs', ())))
+        if any(k in text for k in ('since[', 'until[', 'unless[', 'S[', 'U[', 'W[')):
+            return                      # rtamt's bounded since/until is quadratic in the window
+        try:
+            if self.kind.startswith('dt'):
+                p = tuple(sd.get('period') or (1, 's', 0.1))
+                finer = {'s': 'ms', 'ms': 'us', 'us': 'ns'}.get(p[1])
+                if finer is None:
+                    return
+                sd['period'] = (p[0], finer) + tuple(p[2:])
+            else:
+                sd['unit'] = {'s': 'ms', 'ms': 'us', 'us': 'ns', 'ns': 'us'}[sd.get('unit') or 's']
+            s2 = build_spec(self.kind, sd)
+            s2.parse()
+            if self._pastified:
+                s2.pastify()
+            getattr(s2, method)(*copy.deepcopy([list(a) if isinstance(a, tuple) else a for a in args]))
+            REC.counts['history:neighbour-' + method] += 1
+            LAST_HISTORY.append('object #%d: a neighbour object (same text, %s) was driven first' % (
+                self.oid, 'period %s%s' % sd['period'][:2] if self.kind.startswith('dt') else 'unit ' + sd['unit']))
+        except Exception:
+            REC.counts['history-raised:neighbour'] += 1
+
     def _do(self, method, *args):
         if self._hist is not None and method in ('evaluate', 'update'):
             h, self._hist = self._hist, None
+            if h.random() < 0.3:
+                self._neighbour(h, method, args)
             self._prehistory(h, method, args)
         seq = REC.call(self.oid, method, args)
         try:
@@ -225,6 +263,7 @@ class Mon(object):
         return self._do('parse')
 
     def pastify(self):
+        self._pastified = True
         return self._do('pastify')
 
     def reset(self):
